@@ -358,3 +358,6 @@ def witness_search(tier, seed):
                 r["entry"] = [fk, en, nm]
                 return r
     return None
+
+from pyvc.xcheck import MsdTextProbe, StringAxiomProbe   # noqa: E402
+THOROUGH_BOUNDED = [MsdTextProbe(), StringAxiomProbe()]
